@@ -22,7 +22,16 @@ pub enum Stream {
     /// A TLS stream.
     #[cfg(feature = "tls")]
     Tls(TlsStream<TcpStream>),
+    /// Verification hook: a scripted in-memory connection with the given peer address.
+    #[cfg(humphrey_verif)]
+    Verif(Pin<Box<dyn VerifIo>>, SocketAddr),
 }
+
+/// Verification hook: what a scripted connection must implement.
+#[cfg(humphrey_verif)]
+pub trait VerifIo: AsyncRead + AsyncWrite + Send {}
+#[cfg(humphrey_verif)]
+impl<T: AsyncRead + AsyncWrite + Send> VerifIo for T {}
 
 impl AsyncRead for Stream {
     fn poll_read(
@@ -34,6 +43,8 @@ impl AsyncRead for Stream {
             Stream::Tcp(inner) => Pin::new(inner).poll_read(cx, buf),
             #[cfg(feature = "tls")]
             Stream::Tls(inner) => Pin::new(inner).poll_read(cx, buf),
+            #[cfg(humphrey_verif)]
+            Stream::Verif(inner, _) => inner.as_mut().poll_read(cx, buf),
         }
     }
 }
@@ -48,6 +59,8 @@ impl AsyncWrite for Stream {
             Stream::Tcp(inner) => Pin::new(inner).poll_write(cx, buf),
             #[cfg(feature = "tls")]
             Stream::Tls(inner) => Pin::new(inner).poll_write(cx, buf),
+            #[cfg(humphrey_verif)]
+            Stream::Verif(inner, _) => inner.as_mut().poll_write(cx, buf),
         }
     }
 
@@ -56,6 +69,8 @@ impl AsyncWrite for Stream {
             Stream::Tcp(inner) => Pin::new(inner).poll_flush(cx),
             #[cfg(feature = "tls")]
             Stream::Tls(inner) => Pin::new(inner).poll_flush(cx),
+            #[cfg(humphrey_verif)]
+            Stream::Verif(inner, _) => inner.as_mut().poll_flush(cx),
         }
     }
 
@@ -64,6 +79,8 @@ impl AsyncWrite for Stream {
             Stream::Tcp(inner) => Pin::new(inner).poll_shutdown(cx),
             #[cfg(feature = "tls")]
             Stream::Tls(inner) => Pin::new(inner).poll_shutdown(cx),
+            #[cfg(humphrey_verif)]
+            Stream::Verif(inner, _) => inner.as_mut().poll_shutdown(cx),
         }
     }
 }
@@ -75,6 +92,8 @@ impl Stream {
             Stream::Tcp(stream) => stream.peer_addr(),
             #[cfg(feature = "tls")]
             Stream::Tls(stream) => stream.get_ref().0.peer_addr(),
+            #[cfg(humphrey_verif)]
+            Stream::Verif(_, addr) => Ok(*addr),
         }
     }
 
@@ -84,6 +103,8 @@ impl Stream {
             Stream::Tcp(stream) => stream.shutdown().await,
             #[cfg(feature = "tls")]
             Stream::Tls(stream) => stream.get_mut().0.shutdown().await,
+            #[cfg(humphrey_verif)]
+            Stream::Verif(inner, _) => inner.shutdown().await,
         }
     }
 }
